@@ -111,7 +111,7 @@ func (w *World) checkPrincipalNodeType(P string, f *Facts, r *Roles, ef *ExecFac
 	if arm := at.Arms["child"]; arm != nil && arm.Callee != nil {
 		if hs := f.Handlers["Step"]; hs != nil {
 			n := 0
-			for _, g := range w.handlerClosure(hs.Fn) {
+			for _, g := range w.handlerClosureH(hs) {
 				allInstrs(g, func(in ssa.Instruction) {
 					c, ok := in.(*ssa.Call)
 					if !ok {
@@ -397,6 +397,7 @@ func (w *World) principalPredicate(P string, p *ssa.Function, r *Roles, F int, c
 							case "Namespace":
 								return k.ns, true
 							case "NamedNode", "Element":
+								// node.Element has the method set of node.NamedNode: attribute nodes satisfy it too
 								return k.named, true
 							default:
 								return false, true
@@ -454,6 +455,13 @@ func simulateBool(fn *ssa.Function, atom func(ssa.Value) (bool, bool)) (bool, bo
 				c, ok2 := eval(x.Y, depth+1)
 				if ok1 && ok2 {
 					return (a == c) == (x.Op == token.EQL), true
+				}
+			}
+		case *ssa.Call:
+			// a predicate of the repository over the same subject (`isAttributeNode(n)`): evaluated the same way
+			if sc := staticCallee(x); sc != nil && inRepo(sc) && sc != fn && len(sc.Blocks) > 0 && sc.Signature.Results().Len() == 1 && depth < 6 {
+				if b, isB := sc.Signature.Results().At(0).Type().Underlying().(*types.Basic); isB && b.Kind() == types.Bool {
+					return simulateBool(sc, atom)
 				}
 			}
 		}
